@@ -34,6 +34,14 @@ pub fn endorse_rect(fragments: &[&Fragment]) -> Option<Rect> {
         let min = all_points.iter().min();
         let max = all_points.iter().max();
         if let (Some(min), Some(max)) = (min, max) {
+            #[cfg(feature = "verif")]
+            crate::verif::endorse(
+                "rect",
+                fragments,
+                &Rect::new(*min, *max, false, is_any_broken),
+                None,
+                is_any_broken,
+            );
             Some(Rect::new(*min, *max, false, is_any_broken))
         } else {
             None
@@ -83,6 +91,14 @@ pub fn endorse_rounded_rect(fragments: &[&Fragment]) -> Option<Rect> {
         let min = all_points.iter().min();
         let max = all_points.iter().max();
         if let (Some(min), Some(max)) = (min, max) {
+            #[cfg(feature = "verif")]
+            crate::verif::endorse(
+                "rounded_rect",
+                fragments,
+                &Rect::new(*min, *max, false, is_any_broken),
+                arc_radius,
+                is_any_broken,
+            );
             //TODO: compute the radius from
             Some(Rect::rounded_new(
                 *min,
